@@ -260,7 +260,10 @@ pub fn explore_reads<C>(
         if violated {
             break;
         }
-        if states > MAX_STATES_PER_INPUT {
+        // a correct chunker needs about |input| + 2 states (one per number of consumed bytes); allow
+        // 8x that for small inputs, and a flat 2000 for MiB-sized ones (each replay costs milliseconds)
+        let cap = if data.len() <= 4096 { (8 * (data.len() as u64 + 2) + 64).min(MAX_STATES_PER_INPUT) } else { 2000 };
+        if states > cap {
             agg.add("bfs_capped_inputs", 1);
             break;
         }
